@@ -36,7 +36,8 @@ config H
 endmenu
 '''
 RENAMES = "CONFIG_OLDA CONFIG_A\n"
-CONFIGS = {"c0": {}, "c1": {"A": "n", "N": "7"}, "c2": {"S": 'long "q" \\ text'}}
+# c3: a value outside ASCII (bytes and characters differ in number)
+CONFIGS = {"c0": {}, "c1": {"A": "n", "N": "7"}, "c2": {"S": 'long "q" \\ text'}, "c3": {"S": "caf\u00e9 \u2615"}}
 
 
 def make(run, cfg):
@@ -269,8 +270,8 @@ def main(run):
         if texts is None:
             run.report("%s does not produce its output into a fresh path: %s" % (name, err), {"writer": name, "error": err}, {"Completed", name})
             continue
-        prevs = [None, "c0", "c1"] if tier == "quick" else [None] + cfgs
-        news = ["c0", "c2"] if tier == "quick" else cfgs
+        prevs = [None, "c0", "c1", "c3"] if tier == "quick" else [None] + cfgs
+        news = ["c0", "c2", "c3"] if tier == "quick" else cfgs
         for prev in prevs:
             for new in news:
                 for link in (False, True):
